@@ -2,6 +2,7 @@ package jschema
 
 import (
 	stdBytes "bytes"
+	"encoding/json"
 
 	"github.com/jsightapi/jsight-schema-core/bytes"
 	"github.com/jsightapi/jsight-schema-core/errs"
@@ -87,7 +88,9 @@ func (b *exampleBuilder) buildExampleForObjectNode(node *ischema.ObjectNode) ([]
 
 func (b *exampleBuilder) buildObjectKey(k ischema.ObjectNodeKey) ([]byte, error) {
 	if !k.IsShortcut {
-		return []byte(k.Key), nil
+		// k.Key is the decoded key; escape it again so that a key containing a quote,
+		// a backslash or a control character still yields valid JSON.
+		return jsonEscape(k.Key)
 	}
 
 	typ, ok := b.types[k.Key]
@@ -100,6 +103,18 @@ func (b *exampleBuilder) buildObjectKey(k ischema.ObjectNodeKey) ([]byte, error)
 		return nil, err
 	}
 	return stdBytes.Trim(ex, `"`), nil
+}
+
+// jsonEscape returns s escaped as the inside of a JSON string literal (no quotes).
+func jsonEscape(s string) ([]byte, error) {
+	var buf stdBytes.Buffer
+	enc := json.NewEncoder(&buf)
+	enc.SetEscapeHTML(false)
+	if err := enc.Encode(s); err != nil {
+		return nil, err
+	}
+	q := stdBytes.TrimRight(buf.Bytes(), "\n")
+	return q[1 : len(q)-1], nil
 }
 
 func (b *exampleBuilder) buildExampleForArrayNode(node *ischema.ArrayNode) ([]byte, error) {
